@@ -1153,21 +1153,28 @@ namespace occa {
         return;
       }
 
-      // Make sure to test #elif expression is valid
-      bool isTrue;
-      if (!lineIsTrue(directive, isTrue)) {
-        return;
-      }
-
-      // If we already finished, keep old state
+      // The condition of an #elif that follows a taken group (or sits
+      //   inside a skipped region) is not evaluated, as in C
       if (status & ppStatus::finishedIf) {
+        skipToNewline();
         return;
       }
-
       if (status & ppStatus::reading) {
+        skipToNewline();
         swapReadingStatus();
         status |= ppStatus::finishedIf;
-      } else if (isTrue) {
+        return;
+      }
+
+      bool isTrue;
+      if (!lineIsTrue(directive, isTrue)) {
+        // lineIsTrue pushed the status of a failed #if,
+        //   an #elif stays in its own #if
+        popStatus();
+        return;
+      }
+
+      if (isTrue) {
         status = (ppStatus::foundIf |
                   ppStatus::reading);
       }
